@@ -2,6 +2,7 @@ import SigpyVerif.Model.Py
 import SigpyVerif.Gen.AlgDone
 import SigpyVerif.Gen.C15Resid
 import SigpyVerif.Model.C13
+import SigpyVerif.Gen.C15Mach
 /-
   C15 model (core Lean only).
   * the `Alg` counter machine: `update()` = `_update()` (which itself adds `selfIncr<Cls>` to the
@@ -29,6 +30,16 @@ def ctrUpdate (selfIncr iter : Int) : Int := iter + selfIncr + Gen.algUpdateIncr
 def runLoop {σ : Type} (done : σ → Bool) (update : σ → σ) : Nat → σ → Nat → σ × Nat × Bool
   | 0, s, n => (s, n, done s)
   | f + 1, s, n => if done s then (s, n, true) else runLoop done update f (update s) (n + 1)
+
+/-- the same loop for an `update` that can fail (`Res.raised`: the exception propagates out of the loop; `Res.nofuel`:
+    an inner `while` did not terminate within its fuel): the last component is `true` iff the loop ended by `done` -/
+def runLoopR {σ : Type} (done : σ → Bool) (update : σ → Res σ) : Nat → σ → Nat → σ × Nat × Bool
+  | 0, s, n => (s, n, done s)
+  | f + 1, s, n =>
+    if done s then (s, n, true) else
+    match update s with
+    | Res.ok s' => runLoopR done update f s' (n + 1)
+    | _ => (s, n, false)
 
 structure VOps (V S : Type) where
   add : V → V → V
@@ -171,6 +182,22 @@ def ratV : VOps RVec Rat where
   sub := rzip (· - ·)
   smul := fun s v => v.map (s * ·)
   norm2 := fun v => v.foldl (fun acc a => acc + a * a) 0
+
+/-- the operations of the generated machines (`Gen/C15Mach.lean`) on rational vectors; `norm` to 1e-20 (float streams
+    only), `phase` of a real vector is its sign -/
+def ratM : MOps RVec Rat where
+  add := rzip (· + ·)
+  sub := rzip (· - ·)
+  smul := fun s v => v.map (s * ·)
+  neg := fun v => v.map (- ·)
+  divs := fun v s => v.map (· / s)
+  norm := fun v => C13.sqApprox (v.foldl (fun acc a => acc + a * a) 0)
+  rdot := fun a b => (rzip (· * ·) a b).foldl (· + ·) 0
+  relu := fun v => v.map fun a => if a < 0 then 0 else a
+  mul := rzip (· * ·)
+  phase := fun v => v.map fun a => if a < 0 then -1 else 1
+  vabs := fun v => v.map ratAbs
+  norm1 := fun v => v.foldl (fun acc a => acc + ratAbs a) 0
 
 /-- `m × n` row-major matrix times vector -/
 def rmatVec (m n : Nat) (M : RVec) (v : RVec) : RVec :=
